@@ -431,6 +431,9 @@ func genReq(t *rapid.T, lb string) Req {
 		if rapid.IntRange(0, 3).Draw(t, lb+"werr") == 0 {
 			s.Err = "scripted error after writing"
 		}
+		if s.Status != 0 && rapid.IntRange(0, 7).Draw(t, lb+"early") == 0 {
+			s.Early = 103 // an informational response first: the final status is still the handler's
+		}
 		if rapid.IntRange(0, 7).Draw(t, lb+"pce") == 0 && s.Status != 204 && s.Status != 304 {
 			// a response that is already encoded: compression must step aside
 			s.Header["Content-Encoding"] = []string{rapid.SampledFrom([]string{"br", "x-custom"}).Draw(t, lb+"pcev")}
